@@ -89,6 +89,7 @@ def _strategy_sequences(rep, M, B, file):
 
 
 def check(src, rep):
+    rep.src_for_include = src
     M = Model(src)
     file = src.file(MOD)
     rep.count("modules", len(src.text))
@@ -212,6 +213,12 @@ def check(src, rep):
 
 
 def _rest(rep, M, CM, file):
+    _rest_body(rep, M, CM, file)
+    from sa.cross import include
+    include(rep, rep.src_for_include, "C17", {"R5"}, "R3", "every started attempt runs through its back-off to the factory call (exactly one attempt per iteration, not cancelled by a timeout)")
+
+
+def _rest_body(rep, M, CM, file):
     # ---------------------------------------------------------------- R2 / R3: connect coroutine
     from sa.asyncts import connect_coroutine
     tc = connect_coroutine(CM)
